@@ -20,8 +20,9 @@ ASSUMPTIONS = [
     "SPIMaster: clk_divider in 2..5 (dividers < 2 are outside the documented range), length in 1..data_width (length 0 and > data_width excluded), length/cs/cs_mode/loopback/divider "
     "are only changed while done = 1; overlapping start pulses keep length unchanged; MISO comes from a mode-0 slave model that changes it only with the chip select "
     "or in the cycle in which the clock pin is seen low after being high (stable between falling pin-clock edges), deselected level = 1",
-    "SPISlave: ideal mode-0 master with half period >= 4 system clocks, chip-select lead/lag >= 4 clocks and >= 4 clocks between transfers (the core oversamples the pins through "
-    "2-flop synchronisers); every pin edge may be seen one clock late by each synchroniser independently",
+    "SPISlave: ideal mode-0 master with half period 3..5 system clocks (2 is too fast for the 2-flop synchronisers + edge detector: MISO arrives late), chip select asserted 3 or 5 clocks "
+    "before the first rising edge, released >= half period + 1 after the last falling edge, >= 4 clocks between transfers; start / irq / done are expected within 4 clocks of the chip-select edge; "
+    "the word to send is stable from the chip-select edge on; transfers of 0..data_width clocks",
     "I2CMaster: commands are written only while the machine reports idle (software polls the idle bit), one command bit per write (compound commands are marked TODO in i2c.py), "
     "read only after a byte has been written since the last (re)start, no clock stretching, the slave drives SDA only in the acknowledge slot of a write and the data slots of a read and "
     "changes it only while SCL is low; clock load values 0..2",
@@ -54,6 +55,12 @@ def _register_all():
     for label, ptx in (("P", F(8)), ("P-2%", F(784, 100)), ("P+2%", F(816, 100))):
         reg(f"uart.rx(P=8,line={label},all_bytes)", "thorough",
             lambda label=label, ptx=ptx: U.RxHarness(f"uart.rx(P=8,line={label},all_bytes)", 2**29, ptx, range(256), phases=None if ptx.denominator == 1 else range(0, 25, 6)))
+    for label, clk, baud in (("4", 4e6, 1e6), ("3", 3e6, 1e6), ("5.33", 16e6, 3e6), ("8", 8e6, 1e6)):
+        reg(f"uart.phy_loopback(N={label})", "quick", lambda label=label, clk=clk, baud=baud: U.PhyLoopHarness(f"uart.phy_loopback(N={label})", clk, baud, U.BYTES6))
+    reg("uart.phy_loopback(N=4,all_bytes)", "thorough", lambda: U.PhyLoopHarness("uart.phy_loopback(N=4,all_bytes)", 4e6, 1e6, range(256)))
+    reg("uart.fifos(depth=2,tx)", "quick", lambda: U.UartHarness("uart.fifos(depth=2,tx)", depth=2, side="tx"))
+    reg("uart.fifos(depth=2,rx)", "quick", lambda: U.UartHarness("uart.fifos(depth=2,rx)", depth=2, side="rx"))
+    reg("uart.fifos(depth=2,rx,rx_fifo_rx_we)", "quick", lambda: U.UartHarness("uart.fifos(depth=2,rx,rx_fifo_rx_we)", depth=2, rx_we=True, side="rx"))
     # -- SPI master ---------------------------------------------------------------------------------
     from checks import c19_spi as S
     def spi(name, tier, **kw):
@@ -62,11 +69,40 @@ def _register_all():
         for mode in ("raw", "aligned"):
             spi(f"spi.master(dw=4,div={div},{mode})", "quick", dw=4, div=div, mode=mode)
             spi(f"spi.master(dw=4,div={div},{mode},6_words,all_answers)", "thorough", dw=4, div=div, mode=mode, full_words=True, swords="all")
+    for div, mode in ((2, "raw"), (3, "aligned")):
+        spi(f"spi.master(dw=8,div={div},{mode},lengths 1,2,5,8)", "thorough", dw=8, div=div, mode=mode, lengths=(1, 2, 5, 8), nwords=2, cap=3_000_000)
+    spi("spi.master(dw=8,div=2,aligned,loopback,lengths 1..8)", "thorough", dw=8, div=2, mode="aligned", loopback=1, nwords=3)
     spi("spi.master(dw=4,div=2,raw,loopback)", "quick", dw=4, div=2, mode="raw", loopback=1)
     spi("spi.master(dw=4,div=3,aligned,loopback)", "quick", dw=4, div=3, mode="aligned", loopback=1)
     spi("spi.master(dw=4,div=2,aligned,cs_manual,ncs=2)", "quick", dw=4, div=2, mode="aligned", cs_mode=1, ncs=2)
     spi("spi.master(dw=4,div=3,raw,ncs=2)", "quick", dw=4, div=3, mode="raw", ncs=2)
-    spi("spi.master(dw=4,div=2,aligned,csr)", "quick", dw=4, div=2, mode="aligned", csr=True, ncs=2)
+    spi("spi.master(dw=4,div=2,aligned,csr,2_transfers)", "quick", dw=4, div=2, mode="aligned", csr=True, ncs=2, nwords=2, lengths=(2, 4))
+    # -- SPI slave ----------------------------------------------------------------------------------
+    def spis(name, tier, **kw):
+        reg(name, tier, lambda: S.SpiSlaveHarness(name, **kw))
+    spis("spi.slave(dw=4,half=3)", "quick", dw=4, half=3)
+    spis("spi.slave(dw=4,half=4)", "quick", dw=4, half=4)
+    spis("spi.slave(dw=4,half=5,skew=1)", "quick", dw=4, half=5, skew=1)
+    spis("spi.slave(dw=4,half=4,loopback)", "quick", dw=4, half=4, loopback=1)
+    spis("spi.slave(dw=8,half=4)", "thorough", dw=8, half=4, nwords=4)
+    # -- I2C master ---------------------------------------------------------------------------------
+    from checks import c19_i2c as I
+    for load in (0, 1, 2):
+        reg(f"i2c.master(load={load})", "quick", lambda load=load: I.I2CHarness(f"i2c.master(load={load})", load=load))
+    reg("i2c.master(load=1,all_bytes)", "thorough", lambda: I.I2CHarness("i2c.master(load=1,all_bytes)", load=1, wbytes=range(256), rbytes=range(256)))
+    # -- counters -----------------------------------------------------------------------------------
+    from checks import c19_timers as T
+    reg("timer(values<=3)", "quick", lambda: T.TimerHarness("timer(values<=3)", values=(0, 1, 2, 3)))
+    reg("timer(values 0,1,5)", "thorough", lambda: T.TimerHarness("timer(values 0,1,5)", values=(0, 1, 5)))
+    reg("watchdog(reset_delay=2)", "quick", lambda: T.WatchdogHarness("watchdog(reset_delay=2)", values=(0, 1, 2, 3), reset_delay=2))
+    reg("watchdog(reset_delay=0)", "quick", lambda: T.WatchdogHarness("watchdog(reset_delay=0)", values=(0, 1, 3), reset_delay=0))
+    reg("watchdog(reset_delay=1,halted)", "quick", lambda: T.WatchdogHarness("watchdog(reset_delay=1,halted)", values=(0, 2), reset_delay=1, with_halted=True))
+    reg("pwm(period<=3)", "quick", lambda: T.PwmHarness("pwm(period<=3)"))
+    reg("pwm(period 1,2,5)", "thorough", lambda: T.PwmHarness("pwm(period 1,2,5)", periods=(1, 2, 5), widths=(0, 1, 3, 5, 6)))
+    for times in ((0, 2, 5), (1, 3), (0, 1, 2, 3), (2, 7), (1,), (0, 6)):
+        reg(f"timeline{times}", "quick", lambda times=times: T.TimelineHarness(f"timeline{times}", times))
+    for t in (1, 2, 3, 5, 8):
+        reg(f"waittimer(t={t})", "quick", lambda t=t: T.WaitTimerHarness(f"waittimer(t={t})", t))
 
 
 _register_all()
